@@ -61,7 +61,7 @@ def _mk_ct(kind, txt, vs, pastify=False, subs=()):
     return s
 
 
-def h_dt(defs, main, N, mode, style):
+def h_dt(defs, main, N, mode, style, twice=False):
     defs_list = [(n, T(d)) for n, d in defs]
     main = T(main)
     full = inline(main, dict(defs_list))
@@ -71,6 +71,10 @@ def h_dt(defs, main, N, mode, style):
         A = env.A
         kind = 'offline' if mode == 'offline' else 'combined'
         sm, si = _specs(style, defs_list, main, vs, kind, _mk_dt, mode == 'pastified')
+        if twice and mode == 'offline':
+            w0 = dt.trace(env, vs, N, prefix='first_')      # an earlier evaluation of the same objects on other data
+            dt.offline(sm, w0, N)
+            dt.offline(si, w0, N)
         w = dt.trace(env, vs, N)
         if mode == 'offline':
             gm = [p[1] for p in dt.offline(sm, w, N)]
@@ -175,6 +179,11 @@ def obligations(tier, rng):
                   ('and', ('eventually_t', P, 1, 2), ('historically_t', P, 0, 1))]:
             for mode in ('offline', 'pastified'):
                 out.append(ob('C09', 'dt', 'dt/%s/horizons/p=%s/out=%s' % (mode, text(d), text(m)), defs=[['p', d]], main=m, N=N + 2, mode=mode, style='sub'))
+    # the same specification objects evaluated a second time on different data
+    for d in [('geq', X, C15), ('once_t', X, 0, 1), ('since', X, Y), ('eventually_t', X, 0, 1)]:
+        for m in [('and', P, Z), ('or', P, ('prev', P)), ('always', ('implies', P, ('eventually_t', Z, 0, 2)))]:
+            out.append(ob('C09', 'dt', 'dt/offline-twice/p=%s/out=%s' % (text(d), text(m)), defs=[['p', d]], main=m, N=4, mode='offline', style='sub',
+                          twice=True))
     # nested sub-specs
     for d in [('prev', X), ('once_t', X, 0, 1), ('since', X, Y), ('eventually_t', X, 0, 1)]:
         for q in [('once', P), ('or', P, ('prev', P)), ('historically_t', P, 0, 1)]:
